@@ -1,5 +1,6 @@
 import ApolloModel.Proofs.ExecDoc
 import ApolloModel.Proofs.AstDocument3
+import ApolloModel.Properties.C12
 /-
 C19 — Executable documents and field sets round-trip.
 
@@ -123,6 +124,85 @@ theorem fieldset_typed_roundtrip (s : XSchema) (parent : Str) (t : Sels)
         (fromSels s parent) = some (fromSels s parent t) := by
   rw [fieldset_roundtrip _ hne hwf]
   simp [selection_set_to_ast_inverse]
+
+/-! ### schema and executable document from one mixed text (`Parser::parse_mixed_validate`) -/
+
+/-- an executable definition (the schema builder skips these in a mixed document, `document_from_ast` skips
+    all the others: `executable_definitions_are_errors = type_system_definitions_are_errors = false`) -/
+def isExecDef : Definition → Bool
+  | .operation .. => true
+  | .fragment .. => true
+  | _ => false
+
+theorem fromDef_skip (s : XSchema) (d : XDoc) (x : Definition) (h : isExecDef x = false) : fromDef s d x = d := by
+  cases x <;> simp [isExecDef] at h <;> rfl
+
+theorem foldl_fromDef_filter (s : XSchema) (m : Document) : ∀ d : XDoc,
+    m.foldl (fromDef s) d = (m.filter isExecDef).foldl (fromDef s) d := by
+  induction m with
+  | nil => intro d; rfl
+  | cons x m ih =>
+    intro d
+    cases hx : isExecDef x with
+    | true => simp [List.filter_cons, hx, ih]
+    | false => simp [List.filter_cons, hx, fromDef_skip s d x hx, ih]
+
+/-- The executable document built from a mixed text only depends on its executable definitions, in their order:
+    the type-system definitions in between are skipped. -/
+theorem mixed_exec_ignores_type_system (s : XSchema) (m : Document) :
+    fromDoc s m = fromDoc s (m.filter isExecDef) := foldl_fromDef_filter s m {}
+
+/-- **Mixed round trip, executable half.**  `m`: the AST of the mixed text; `sd'`: whatever type-system
+    definitions the re-serialized schema consists of.  For every indentation setting: print `sd'` followed by the
+    executable document built from `m`, read the tokens back, build against the same schema: the same executable
+    document.  (Hypotheses as in `exec_roundtrip`: the printed AST is well formed in the sense of C08.) -/
+theorem mixed_roundtrip_exec (pre : Option Str) (level : Nat) (s : XSchema) (m sd' : Document)
+    (hsd : ∀ x ∈ sd', isExecDef x = false)
+    (hne : sd' ++ toAst (fromDoc s m) ≠ []) (hwf : wfDefinitions (sd' ++ toAst (fromDoc s m)) = true) :
+    (pDocument (szDefinitions (sd' ++ toAst (fromDoc s m)))
+        (toksOf (cDocument (outputEmptyAtStart pre level) (sd' ++ toAst (fromDoc s m))))).map (fromDoc s)
+      = some (fromDoc s m) := by
+  rw [exec_roundtrip.C08_print_parse pre level _ hne hwf]
+  have hfilter : (sd' ++ toAst (fromDoc s m)).filter isExecDef = (toAst (fromDoc s m)).filter isExecDef := by
+    rw [List.filter_append]
+    have : sd'.filter isExecDef = [] := by
+      rw [List.filter_eq_nil_iff]; intro x hx; simp [hsd x hx]
+    rw [this, List.nil_append]
+  simp only [Option.map_some, Option.some.injEq]
+  rw [mixed_exec_ignores_type_system, hfilter, ← mixed_exec_ignores_type_system, exec_to_ast_inverse]
+
+open Apollo.SchemaBuild Apollo.SchemaSerialize in
+/-- **Mixed round trip** as the conjunction of its two halves, with their exact hypotheses.
+    Schema half (property C12, its own model of `SchemaBuilder` / `Schema::to_ast`): for a schema with an explicit
+    `schema` definition, new directive definitions and untouched built-in types, building `to_ast` again from a
+    fresh builder gives the same schema definition, directive definitions and types in the same order, each
+    regrouped, and no diagnostic.  Executable half: `mixed_roundtrip_exec`.  The two models are not connected in
+    Lean: that the re-built schema types the executable document identically is the statement that the two
+    schemas are equal, which is what the schema half says. -/
+theorem mixed_roundtrip
+    -- schema half
+    (adopt ignoreBuiltin : Bool) (b : Builder) (B U : List TypeEntry) (p : Pos)
+    (htypes : b.types = B ++ U) (hB : ∀ t ∈ B, t.builtin = true ∧ t.body = Body.empty)
+    (hU : ∀ t ∈ U, TypeWF t) (hUn : (U.map (·.name)).Nodup) (hUb : ∀ t ∈ U, findType builtinTypes t.name = none)
+    (hDn : ((b.directiveDefs.filter (fun d => !d.builtin)).map (·.name)).Nodup)
+    (hDb : ∀ d ∈ b.directiveDefs.filter (fun d => !d.builtin), findDir builtinDirectives d.name = none)
+    (hsd : BodyWF (schemaBody b.schemaDef)) (hp : b.schemaDef.pos = some p)
+    (hexpl : implicitSchema b.schemaDef b.types = false)
+    -- executable half
+    (pre : Option Str) (level : Nat) (s : XSchema) (m sd' : Document)
+    (hsd' : ∀ x ∈ sd', isExecDef x = false)
+    (hne : sd' ++ toAst (fromDoc s m) ≠ []) (hwf : wfDefinitions (sd' ++ toAst (fromDoc s m)) = true) :
+    addDocument (Builder.new adopt ignoreBuiltin) (Apollo.SchemaSerialize.toAst b) =
+      { Builder.new adopt ignoreBuiltin with
+        schemaDef := ⟨some p, regroupBody (schemaBody b.schemaDef)⟩, schemaFound := true,
+        directiveDefs := builtinDirectives
+          ++ (b.directiveDefs.filter (fun d => !d.builtin)).map (fun d => ⟨d.name, some (d.pos.getD 0), false⟩),
+        types := builtinTypes ++ U.map regroupType } ∧
+    (pDocument (szDefinitions (sd' ++ toAst (fromDoc s m)))
+        (toksOf (cDocument (outputEmptyAtStart pre level) (sd' ++ toAst (fromDoc s m))))).map (fromDoc s)
+      = some (fromDoc s m) :=
+  ⟨Apollo.C12.toAst_build_schema adopt ignoreBuiltin b B U p htypes hB hU hUn hUb hDn hDb hsd hp hexpl,
+   mixed_roundtrip_exec pre level s m sd' hsd' hne hwf⟩
 
 /-! ### non-vacuity -/
 
